@@ -188,7 +188,7 @@ class Fn:
         rets.append((fall, None))   # falling off the end returns None
         return rets
 
-    def value(self, rets):
+    def value(self, rets, allow_none=False):
         """Merge outcomes: (returned value term, raised condition, {label: condition})."""
         val = None
         raised = z3.BoolVal(False)
@@ -198,7 +198,7 @@ class Fn:
                 raised = z3.Or(raised, cond)
                 labels[v.label] = z3.Or(labels.get(v.label, z3.BoolVal(False)), cond)
             elif v is None:
-                if z3.is_false(z3.simplify(cond)):
+                if allow_none or z3.is_false(z3.simplify(cond)):
                     continue
                 raise Unsupported('a path returns None')
             else:
@@ -483,15 +483,17 @@ class Fn:
         if isinstance(e, ast.BinOp):
             return self.binop(e.op, self.expr(e.left, st), self.expr(e.right, st))
         if isinstance(e, ast.BoolOp):
-            vs = [self.cond(v, st) for v in e.values]
-            if isinstance(e.op, ast.And):
-                if any(v is False for v in vs):
+            vs = []
+            for v in e.values:          # short-circuit on concrete truth values, as Python does
+                c = self.cond(v, st)
+                if isinstance(e.op, ast.And) and c is False:
                     return False
-                vs = [v for v in vs if v is not True]
+                if isinstance(e.op, ast.Or) and c is True:
+                    return True
+                if not isinstance(c, bool):
+                    vs.append(c)
+            if isinstance(e.op, ast.And):
                 return True if not vs else (vs[0] if len(vs) == 1 else z3.And(*vs))
-            if any(v is True for v in vs):
-                return True
-            vs = [v for v in vs if v is not False]
             return False if not vs else (vs[0] if len(vs) == 1 else z3.Or(*vs))
         if isinstance(e, ast.Compare):
             left = self.expr(e.left, st)
@@ -733,12 +735,12 @@ class CondTuple:
         self.c, self.a, self.b = c, a, b
 
 
-def translate(pyfn, args, stubs=None, env=None, kwargs=None):
+def translate(pyfn, args, stubs=None, env=None, kwargs=None, procedure=False):
     """Translate and call; returns dict(val, raised, labels, side, nonneg, oob, notes, callee_raises)."""
     fn = Fn(pyfn, stubs=stubs, env=env)
     fn.nonneg, fn.side_oob, fn.callee_raises = [], [], []
     rets = fn(*args, **(kwargs or {}))
-    val, raised, labels = fn.value(rets)
+    val, raised, labels = fn.value(rets, allow_none=procedure)
     return dict(val=val, raised=raised, labels=labels, side=fn.side, nonneg=fn.nonneg, oob=fn.side_oob, notes=fn.notes,
                 callee_raises=fn.callee_raises, rets=rets, fn=fn)
 
